@@ -350,6 +350,10 @@ func (c *Ctx) Numeric(t *rapid.T, kind model.Kind, pos Pos) *model.Node {
 	if chance(t, p.PConstraint*0.6, "hasmult") {
 		if kind == model.KInteger {
 			n.MultipleOf = model.FloatP(float64(rapid.SampledFrom([]int{1, 2, 3, 5, 7, 10, 64}).Draw(t, "mult")))
+			if p.FractionalIntBounds && rapid.IntRange(0, 5).Draw(t, "fracmult") == 0 && !p.avoid("ints.fractional_multipleof") {
+				// known finding while the switch is on: the divisor is truncated to an integer
+				n.MultipleOf = model.FloatP(rapid.SampledFrom([]float64{0.5, 1.5, 2.5, 0.25}).Draw(t, "fracmultv"))
+			}
 		} else if pos == PosDef && p.avoid("numbers.named_float_multipleof") {
 			// excluded by a known finding
 		} else {
